@@ -89,16 +89,21 @@ theorem wstep_idOK (vo : VOps V) (st : St V) (e : Ev V) (hb : Bound st) (h : IdO
     | setPid p => exact ⟨h.1, he⟩
     | _ => exact ⟨h.2, h.2⟩
 
+/-- what a world event must respect: a call updates only through the youngest value object on its (prefix, key) -/
+def EvOK (st : St V) : Ev V → Prop
+  | .op o => OpOK (idsOf st) o
+  | _ => True
+
 theorem wstep_inv (vo : VOps V) (st : St V) (e : Ev V) (h : Inv vo st) (hid : IdOK st) (he : evIdOK e)
-    (hu : ((wstep vo st e).1.values.map (fun v => idOf v.params)).Nodup) : Inv vo (wstep vo st e).1 := by
+    (hu : EvOK st e) : Inv vo (wstep vo st e).1 := by
   cases e with
   | op o => exact step_inv vo st o h hu
   | spawn p =>
-    exact ⟨⟨filesOK_nil _, (fun v hv => by cases hv), (fun v hv => by cases hv)⟩, (fun v hv => by cases hv), by simp [wstep]⟩
+    exact ⟨⟨filesOK_nil _, (fun v hv => by cases hv), (fun v hv => by cases hv)⟩, (fun i v hv _ => by simp [wstep] at hv)⟩
   | dead q =>
-    simp only [wstep] at hu ⊢
+    simp only [wstep]
     split
-    · exact ⟨⟨filesOK_nil _, (fun v hv => by cases hv), (fun v hv => by cases hv)⟩, (fun v hv => by cases hv), by simp⟩
+    · exact ⟨⟨filesOK_nil _, (fun v hv => by cases hv), (fun v hv => by cases hv)⟩, (fun i v hv _ => by simp at hv)⟩
     · next hne =>
       have hq : q ≠ st.pid := fun e => hne (Or.inl e)
       have hlive : ∀ v ∈ st.values, isLiveFileOf q v.file = false := by
@@ -108,20 +113,21 @@ theorem wstep_inv (vo : VOps V) (st : St V) (e : Ev V) (h : Inv vo st) (hid : Id
         | true =>
           rw [(h.bound.bound v hv).2] at hl
           exact absurd (isLiveFileOf_fileName q _ st.pid he hid.1 hl).symm hq
-      refine ⟨⟨h.bound.files, h.bound.bound, ?_⟩, ?_, h.uniq⟩
+      refine ⟨⟨h.bound.files, h.bound.bound, ?_⟩, ?_⟩
       · intro v hv
         show (cellGet (deadDisk q st.disk) v.file v.key).isSome = true
         rw [cellGet_deadDisk, hlive v hv]
         exact h.bound.exist v hv
-      · intro v hv
+      · intro i v hv hl
         show cellVal vo (deadDisk q st.disk) v.file v.key = _
-        rw [cellVal_deadDisk, hlive v hv]
-        exact h.cached v hv
+        rw [cellVal_deadDisk, hlive v (List.mem_iff_getElem?.mpr ⟨i, hv⟩)]
+        exact h.cached i v hv hl
 
-/-- uniqueness of (prefix, key) among the live value objects of the acting worker, at every point of the history -/
+/-- at every point of the world history, the acting worker updates only through the youngest value object on each
+    (prefix, key) — stale objects (dropped children, shadowed metrics) may exist, they must not be updated -/
 def WUniq (vo : VOps V) : St V → List (Ev V) → Prop
   | _, [] => True
-  | st, e :: r => ((wstep vo st e).1.values.map (fun v => idOf v.params)).Nodup ∧ WUniq vo (wstep vo st e).1 r
+  | st, e :: r => EvOK st e ∧ WUniq vo (wstep vo st e).1 r
 
 theorem wrun_cons (vo : VOps V) (st : St V) (e : Ev V) (r : List (Ev V)) :
     wrun vo st (e :: r) = wrun vo (wstep vo st e).1 r := rfl
@@ -150,6 +156,56 @@ theorem wuniq_append (vo : VOps V) (a b : List (Ev V)) (st : St V) (h : WUniq vo
   | cons e r ih =>
     have := ih _ h.2
     exact ⟨⟨h.1, this.1⟩, this.2⟩
+
+/-! ### executable forms of the hypotheses (for concrete histories) -/
+
+def isLastB (ids : List (Str × Key)) (i : Nat) : Bool := (ids.drop (i + 1)).all (fun a => decide (ids[i]? ≠ some a))
+
+theorem isLastB_sound (ids : List (Str × Key)) (i : Nat) (h : isLastB ids i = true) : IsLast ids i := by
+  intro j a hij hj
+  unfold isLastB at h
+  rw [List.all_eq_true] at h
+  have hmem : a ∈ ids.drop (i + 1) := by
+    rw [List.mem_iff_getElem?]
+    refine ⟨j - (i + 1), ?_⟩
+    rw [List.getElem?_drop]
+    have : i + 1 + (j - (i + 1)) = j := by omega
+    rw [this]; exact hj
+  exact of_decide_eq_true (h a hmem)
+
+def opOKB (ids : List (Str × Key)) : Op V → Bool
+  | .inc i _ => isLastB ids i
+  | .set i _ _ => isLastB ids i
+  | _ => true
+
+theorem opOKB_sound (ids : List (Str × Key)) (o : Op V) (h : opOKB ids o = true) : OpOK ids o := by
+  cases o <;> first | trivial | exact isLastB_sound _ _ h
+
+def opsOKB : List (Str × Key) → List (Op V) → Bool
+  | _, [] => true
+  | ids, o :: r => opOKB ids o && opsOKB (ids ++ (newParams o).map idOf) r
+
+theorem opsOKB_sound (ops : List (Op V)) (ids : List (Str × Key)) (h : opsOKB ids ops = true) : OpsOK ids ops := by
+  induction ops generalizing ids with
+  | nil => trivial
+  | cons o r ih =>
+    simp only [opsOKB, Bool.and_eq_true] at h
+    exact ⟨opOKB_sound ids o h.1, ih _ h.2⟩
+
+def wUniqB (vo : VOps V) : St V → List (Ev V) → Bool
+  | _, [] => true
+  | st, e :: r => (match e with | .op o => opOKB (idsOf st) o | _ => true) && wUniqB vo (wstep vo st e).1 r
+
+theorem wUniqB_sound (vo : VOps V) (evs : List (Ev V)) (st : St V) (h : wUniqB vo st evs = true) : WUniq vo st evs := by
+  induction evs generalizing st with
+  | nil => trivial
+  | cons e r ih =>
+    simp only [wUniqB, Bool.and_eq_true] at h
+    refine ⟨?_, ih _ h.2⟩
+    cases e with
+    | op o => exact opOKB_sound _ o h.1
+    | spawn p => trivial
+    | dead q => trivial
 
 /-! ### the world log of one series and the cell of one identity -/
 
@@ -206,7 +262,7 @@ theorem wrun_cell (vo : VOps V) (pre : Str) (k : Key) (p : Str) (hp : '_' ∉ p)
         simp only [List.mem_singleton] at hq
         subst hq
         exact he
-      have hcell := run_cell vo pre k p hp [o] st h hu.1 hids
+      have hcell := run_cell vo pre k p hp [o] st h ⟨hu.1, trivial⟩ hids
       simp only [run, List.foldl_cons, List.foldl_nil] at hcell
       rw [hcell, step_params vo st o h.bound, step_actual vo st o h.bound, (step_pid vo st o h.bound).2]
       cases o <;> rfl
